@@ -6,12 +6,13 @@ set -u
 V=/verif
 REPO=${VERIF_REPO:-/repo}
 cd $V || exit 2
-export ASAN_OPTIONS=${ASAN_OPTIONS:-abort_on_error=0:detect_leaks=0:allocator_may_return_null=1:handle_segv=0:handle_abort=0:handle_sigbus=0:handle_sigfpe=0:handle_sigill=0}
-export UBSAN_OPTIONS=${UBSAN_OPTIONS:-print_stacktrace=0}
+# sanitizer options are compiled into the checkers (__asan_default_options); do not inherit foreign ones
+unset ASAN_OPTIONS UBSAN_OPTIONS
 
 driver_of() {
   case "$1" in
     C06|C07|C11) echo nav ;;
+    C01|C09|C12|C16) echo api ;;
     *) echo "" ;;
   esac
 }
@@ -25,7 +26,7 @@ build() {
   local CF="-O1 -g -DBINSON_PARSER_WITH_PRINT -I$REPO/include"
   gcc -std=c99 $CF $SANFLAGS -c $REPO/src/binson_parser.c -o $B/binson_parser.o || return 2
   gcc -std=c99 $CF $SANFLAGS -c $REPO/src/binson_writer.c -o $B/binson_writer.o || return 2
-  gcc -std=gnu11 -Wall -Wno-unused-function $CF $SANFLAGS -DVF_ROOT=\"$V\" $V/checks/$drv.c $B/binson_parser.o $B/binson_writer.o -o $B/$drv -lm || return 2
+  gcc -std=gnu11 -Wall -Wno-unused-function -Wno-format-truncation $CF $SANFLAGS -DVF_ROOT=\"$V\" $V/checks/$drv.c $B/binson_parser.o $B/binson_writer.o -o $B/$drv -lm || return 2
 }
 
 if [ "${1:-}" = replay ]; then
@@ -33,7 +34,11 @@ if [ "${1:-}" = replay ]; then
   drv=$(sed -n 's/^check: //p' "$f" | head -1)
   prop=$(sed -n 's/^property: //p' "$f" | head -1)
   build $drv || { echo "HARNESS-ERROR: build failed"; exit 2; }
-  exec $V/build/$drv/$drv --prop $prop --replay "$f"
+  $V/build/$drv/$drv --prop $prop --replay "$f"
+  rc=$?
+  # exit 3 = the code under test died (signal / sanitizer / hang) while replaying: the violation reproduces
+  if [ $rc = 3 ]; then echo "VIOLATION property=$prop replay=$f"; exit 1; fi
+  exit $rc
 fi
 
 prop=${1:?property id}
